@@ -203,7 +203,79 @@ impl CtxStore {
     }
 }
 
+// ---------------------------------------------------------------------------
+// Cross-context noise.  Nothing in the properties allows one context's
+// behaviour to depend on another context's existence or traffic; state that
+// ought to live in a context but is kept in a `static` would make it so.  For
+// one case in sixteen (decided by the engine from the case's hash, so replay is
+// deterministic) every wrapped library call on the context under test is
+// preceded by a small history on a *foreign*, freshly created context.  The
+// oracle knows nothing about this traffic.
+
+thread_local! {
+    static NOISE: std::cell::Cell<Option<u64>> = const { std::cell::Cell::new(None) };
+    static NOISE_TICK: std::cell::Cell<u64> = const { std::cell::Cell::new(0) };
+    static NOISE_CALLS: std::cell::Cell<u64> = const { std::cell::Cell::new(0) };
+}
+
+pub fn set_noise(v: Option<u64>) {
+    NOISE.with(|n| n.set(v));
+    NOISE_TICK.with(|n| n.set(0));
+}
+
+/// Number of foreign-context histories run by this thread so far.
+pub fn noise_calls() -> u64 {
+    NOISE_CALLS.with(|n| n.get())
+}
+
+fn noise_tick() {
+    let h = match NOISE.with(|n| n.get()) {
+        Some(h) => h,
+        None => return,
+    };
+    let k = NOISE_TICK.with(|n| {
+        let v = n.get();
+        n.set(v + 1);
+        v
+    });
+    NOISE_CALLS.with(|n| n.set(n.get() + 1));
+    let x = h.rotate_left((k as u32 * 7) & 63) ^ k.wrapping_mul(0x9E37_79B9_7F4A_7C15);
+    let b = |i: u32| (x >> (8 * (i & 7))) as u8;
+    let _ = trap(|| {
+        let addr = b(0) & 0x7F;
+        let types = [0x7Eu8, 0x7F, 0x05, b(1)];
+        let vendors = [
+            VendorIDFormat { format: 1, data: 0xA1B2_C3D4 ^ (x as u32), numeric_value: b(2) as u16 },
+            VendorIDFormat { format: 0, data: 0x8086, numeric_value: 0x0001 },
+        ];
+        let mut f = MCTPSMBusContext::new(addr, &types, &vendors);
+        let mut buf = [0u8; 96];
+        let eid = (b(3) | 1) & 0xFE;
+        let set = crate::refmodel::build_control_request(addr, 0x22, addr, 0x22, b(4) & 0x1F, 0x01, &[k as u8 & 1, eid]);
+        let _ = f.process_packet(&set, &mut buf);
+        if k & 1 == 0 {
+            f.set_uuid(&[b(5); 16]);
+            let mut bad = crate::refmodel::build_control_request(addr, 0x22, addr, 0x22, 1, 0x02, &[]);
+            let n = bad.len();
+            bad[n - 1] ^= 0x5A;
+            let _ = f.decode_packet(&bad);
+            let get = crate::refmodel::build_control_request(addr, 0x22, addr, 0x22, 2, 0x06, &[1]);
+            let _ = f.process_packet(&get, &mut buf);
+            let _ = f.get_length(&[b(6), 0x0F, b(7), 0x45]);
+        } else {
+            let v = VendorIDFormat { format: b(5) & 1, data: x as u32, numeric_value: 7 };
+            let _ = f.get_request().vendor_defined(b(6), &v, &[b(7), 0x0F, 0x00], &mut buf);
+            let _ = f.get_request().get_endpoint_id(b(6) ^ 0x80, &mut buf);
+            let _ = f.get_response().get_endpoint_uuid(CompletionCode::Success, b(6), &[b(1); 16], &mut buf);
+            let resp = crate::refmodel::build_control_response(addr, 0x22, addr, 0x22, 0, 0x02, 0, &[eid, 0, 0, 0]);
+            let _ = f.process_packet(&resp, &mut buf);
+            f.get_request().set_eid(b(2));
+        }
+    });
+}
+
 pub fn decode(ctx: &MCTPSMBusContext, bytes: &[u8]) -> Dec {
+    noise_tick();
     match trap(|| project(bytes, ctx.decode_packet(bytes))) {
         Ok(d) => d,
         Err(m) => Dec::Panic(m),
@@ -217,6 +289,7 @@ pub struct Proc {
 }
 
 pub fn process(ctx: &MCTPSMBusContext, bytes: &[u8], buf: &mut [u8]) -> Proc {
+    noise_tick();
     match trap(|| match ctx.process_packet(bytes, buf) {
         Ok(((t, p), n)) => Proc { dec: project(bytes, Ok((t, p))), resp: n },
         Err(e) => Proc { dec: project(bytes, Err(e)), resp: None },
@@ -234,6 +307,7 @@ pub enum Len {
 }
 
 pub fn get_length(ctx: &MCTPSMBusContext, bytes: &[u8]) -> Len {
+    noise_tick();
     match trap(|| match ctx.get_length(bytes) {
         Ok(n) => Len::Ok(n),
         Err((t, e)) => Len::Err { ty: mt_u8(&t), err: errk(&e) },
@@ -402,6 +476,7 @@ pub fn encode_raw(ctx: &MCTPSMBusContext, call: &EncCall, dest: u8, buf: &mut [u
 }
 
 pub fn encode(ctx: &MCTPSMBusContext, call: &EncCall, dest: u8, buf: &mut [u8]) -> Enc {
+    noise_tick();
     match trap(|| encode_raw(ctx, call, dest, buf)) {
         Ok(Ok(n)) => Enc::Ok(n),
         Ok(Err(())) => Enc::Err,
@@ -410,9 +485,11 @@ pub fn encode(ctx: &MCTPSMBusContext, call: &EncCall, dest: u8, buf: &mut [u8]) 
 }
 
 pub fn req_eid(ctx: &MCTPSMBusContext) -> u8 {
+    noise_tick();
     ctx.get_request().get_eid()
 }
 pub fn resp_eid(ctx: &MCTPSMBusContext) -> u8 {
+    noise_tick();
     ctx.get_response().get_eid()
 }
 pub fn set_req_eid(ctx: &MCTPSMBusContext, v: u8) {
